@@ -1,7 +1,7 @@
 (* Extraction of the executable model to OCaml (ExtrOcamlBasic only; N, Z, positive, nat stay datatypes). *)
 Require Extraction.
 Require Import ExtrOcamlBasic.
-From DictIO Require Import Chars Str Value Scalar KeyPath SDict Layout Lexer TokParser Reader Expr Eval Cli Paths Xml.
+From DictIO Require Import Chars Str Value Scalar KeyPath SDict Layout Lexer TokParser Reader Expr Eval Cli Parse Paths Xml.
 Extraction Blacklist String List Nat Bool Str.
 Cd "../ocaml/extracted".
 Separate Extraction
@@ -17,6 +17,7 @@ Separate Extraction
   Reader.read_plain Reader.json_parse Reader.norm_path Reader.write_text Reader.writer_run
   Expr.variables_of Expr.resolve_reference Expr.subst_refs Expr.py_str_tree
   Eval.read_full Eval.pyeval
+  Parse.parse_model Parse.read_opts
   Cli.cli_kwargs Cli.validate_scope Cli.target_file_name
   Paths.relative_path Paths.norm_join Paths.common_prefix_all Paths.include_directive_text Paths.directive_name
   Xml.xml_parse Xml.populate.
